@@ -2,6 +2,8 @@
 #![allow(clippy::too_many_arguments)]
 
 mod globals;
+#[cfg(capy_verif)]
+pub mod verif;
 
 #[cfg(test)]
 mod tests;
@@ -604,6 +606,16 @@ impl<'a, F: EvalComptimeFn> InferenceCtx<'a, F> {
                     // }),
         );
 
+        #[cfg(capy_verif)]
+        verif::record(|| {
+            verif::SchedOp::Extend(
+                self.to_infer
+                    .peek_all()
+                    .map(|all| all.into_iter().map(|l| format!("{l:?}")).collect())
+                    .unwrap_or_default(),
+            )
+        });
+
         if self.to_infer.is_empty() {
             return InferenceResult {
                 tys: self.tys,
@@ -613,6 +625,11 @@ impl<'a, F: EvalComptimeFn> InferenceCtx<'a, F> {
         }
 
         loop {
+            #[cfg(capy_verif)]
+            verif::round();
+            #[cfg(capy_verif)]
+            let verif_cyclic = self.to_infer.peek_all().is_err();
+
             let leaves = match self.to_infer.peek_all() {
                 Ok(leaves) => leaves.into_iter().cloned().collect_vec(),
                 Err(_) => {
@@ -665,6 +682,12 @@ impl<'a, F: EvalComptimeFn> InferenceCtx<'a, F> {
 
             assert!(!leaves.is_empty());
 
+            #[cfg(capy_verif)]
+            verif::record(|| verif::SchedOp::Round {
+                cyclic: verif_cyclic,
+                offered: leaves.iter().map(|l| format!("{l:?}")).collect(),
+            });
+
             // println!("inferring leaves: {leaves:#?}");
 
             for inferrable in leaves {
@@ -680,9 +703,18 @@ impl<'a, F: EvalComptimeFn> InferenceCtx<'a, F> {
                             "--- FINISHED TYPING {} ---",
                             inferrable.debug(self.interner)
                         );
+                        #[cfg(capy_verif)]
+                        verif::record(|| verif::SchedOp::Done(format!("{inferrable:?}")));
                         self.to_infer.remove(&inferrable);
                     }
                     Err(deps) => {
+                        #[cfg(capy_verif)]
+                        verif::record(|| {
+                            verif::SchedOp::Deps(
+                                format!("{inferrable:?}"),
+                                deps.iter().map(|l| format!("{l:?}")).collect(),
+                            )
+                        });
                         // println!(" - requires deps");
                         self.to_infer.insert_deps(inferrable, deps);
                     }
